@@ -1,14 +1,13 @@
-\* C14, quick tier.  Symbolic machine integers: MAX = 2*H+1 = [2,1].
+\* C14, quick tier, theorems (no output; several workers).  Symbolic machine integers: MAX = 2*H+1 = [2,1]  (Go: H = 2^62-1, MAX = math.MaxInt).
 \* All operations with <= 3 selection nodes x {no custom cost, one slot, two slots, all slots uniform}.
-\* Measured: see notes/C14.md
+\* Measured: 253 trees, 27,097 (tree, costs) inputs, 54,447 distinct states, depth 3; 2 workers ~15 s.
 CONSTANTS
   MaxH = 2
   MaxD = 1
   MaxSize = 3
   MaxCustom = 2
   Corpus = "gen"
-  Emit = TRUE
+  Emit = FALSE
 SPECIFICATION Spec
-ACTION_CONSTRAINT EmitEdge
 INVARIANTS TRange TDSmall TChildren TMonotone TPerm TFragment TGate TGateMono
 CHECK_DEADLOCK FALSE
